@@ -6,6 +6,8 @@ EXTENDS HotUpdate
 RoutedDef == <<"pa", "pb">>
 KindsFull == <<"rl", "px">>
 KindsOne == <<"k">>
+KindsRl == <<"rl">>
+KindsPx == <<"px">>
 
 MCSpec == Init /\ [][Next]_vars
 =============================================================================
